@@ -4,6 +4,6 @@ set -e
 cd "$(dirname "$0")"
 coqc -Q ../coq Moss Extract.v >/dev/null
 mkdir -p ../.build
-for drv in flatrun treerun indexrun rorun crashrun codecrun histrun faultrun iterrun syncrun concrun; do
+for drv in flatrun treerun indexrun rorun crashrun codecrun histrun faultrun iterrun syncrun concrun refsrun; do
   ocamlfind ocamlopt -w -a -package str model.mli model.ml sexp.ml conv.ml $drv.ml -o ../.build/$drv
 done
